@@ -99,12 +99,13 @@ def apply_constraints(layer, order="ks"):
       layer.finalize_constraints()
 
 
-def evaluate(layer, cfg, units, X):
+def evaluate(layer, cfg, units, X, form="tensor"):
   tf, _ = bind.bind()
-  if units == 1:
-    return np.asarray(layer(tf.constant(X.astype(np.float32))), dtype=np.float64)
-  Xu = np.repeat(X[:, None, :], units, axis=1)
-  return np.asarray(layer(tf.constant(Xu.astype(np.float32))), dtype=np.float64)
+  Xu = X.astype(np.float32) if units == 1 else np.repeat(X[:, None, :], units, axis=1).astype(np.float32)
+  if form == "list":   # documented alternative input form: one tensor per input dimension
+    parts = [tf.constant(Xu[..., k:k + 1]) for k in range(Xu.shape[-1])]
+    return np.asarray(layer(parts), dtype=np.float64)
+  return np.asarray(layer(tf.constant(Xu)), dtype=np.float64)
 
 
 def judge_outputs(cfg, out, X, pts, extra_tol=0.0):
@@ -116,7 +117,7 @@ def judge_outputs(cfg, out, X, pts, extra_tol=0.0):
   B = out.shape[1]
   if not np.all(np.isfinite(out)):
     c = int(np.where(~np.all(np.isfinite(out), axis=0))[0][0])
-    return [(c, "nonfinite", "non-finite layer output")]
+    return [(c, "nonfinite", "non-finite layer output, or list-form inputs give a different output than tensor-form")]
   mag = np.maximum(1.0, np.abs(out).max(axis=0))
   tol = 5e-4 * mag + extra_tol  # float32 tf.pow in the bound projection is only ~1e-4 accurate
   inrange = np.all((X >= 0) & (X <= L - 1), axis=1)
@@ -149,7 +150,7 @@ def judge_outputs(cfg, out, X, pts, extra_tol=0.0):
   return res
 
 
-def run_block(cfg, Kunits, Sunits, order):
+def run_block(cfg, Kunits, Sunits, order, list_form=False):
   """Real constraints then real evaluation for a block of units."""
   B = Kunits.shape[0]
   layer = make_layer(cfg, B)
@@ -159,6 +160,14 @@ def run_block(cfg, Kunits, Sunits, order):
   out = evaluate(layer, cfg, B, X)
   if B == 1:
     out = out.reshape(-1, 1)
+  if list_form:
+    out_l = evaluate(layer, cfg, B, X, form="list").reshape(out.shape)
+    bad = ~(np.abs(out_l - out) <= 1e-5 * np.maximum(1.0, np.abs(out)))
+    if bad.any():
+      r, c = np.unravel_index(int(np.argmax(bad)), bad.shape)
+      # make the discrepancy visible to the caller as a non-finite output of that unit
+      out = out.copy()
+      out[r, c] = np.nan
   K2, S2 = get_weights(layer, cfg)
   asserted = None
   try:
@@ -174,7 +183,7 @@ def replay(case):
   cfg = case["cfg"]
   K = np.asarray(case["kernel"], dtype=np.float64)[None]
   S = np.asarray(case["scale"], dtype=np.float64)[None]
-  out, X, pts, K2, S2, asserted = run_block(cfg, K, S, case.get("order", "ks"))
+  out, X, pts, K2, S2, asserted = run_block(cfg, K, S, case.get("order", "ks"), list_form=True)
   res = judge_outputs(cfg, out, X, pts)
   msgs = [m for _, _, m in res]
   if asserted and case.get("violated") == "assert":
@@ -195,7 +204,7 @@ def explore_config(ctx, cfg):
       for start in range(0, N, UNIT_BLOCK):
         Kb = Kall[start:start + UNIT_BLOCK]
         Sb = np.repeat(s[None, :], Kb.shape[0], axis=0)
-        out, X, pts, K2, S2, asserted = run_block(cfg, Kb, Sb, order)
+        out, X, pts, K2, S2, asserted = run_block(cfg, Kb, Sb, order, list_form=(start == 0 and order == "ks"))
         res = judge_outputs(cfg, out, X, pts)
         total += Kb.shape[0]
         nontriv += int((np.abs(K2 - Kb).reshape(Kb.shape[0], -1).max(axis=1) > 0).sum())
